@@ -6,6 +6,7 @@ import Quanto.Spec.C06
 import Quanto.AwqBits
 import Quanto.AwqSelect
 import Quanto.Alias
+import Quanto.Streamline
 import Quanto.OpsWire
 import Quanto.Spec.C05
 import Quanto.Linear
@@ -238,6 +239,14 @@ def handle (toks : List String) : String :=
       let fin := calibFold F m events
       let spec := emaSpec F m events none
       s!"{F.encode fin} {match spec with | some v => toString (F.encode v) | none => "none"}"
+  -- C12: stream12 <children ids, comma separated or -> call…   (call = <src ids joined by +, or ->:<q|p>:<class names of `types` joined by +>)  → disabled children
+  | "stream12" :: children :: calls =>
+      let ids (s : String) : List Nat := if s == "-" then [] else (s.splitOn ",").map String.toNat!
+      let cs : List FnCall := calls.map fun c =>
+        match c.splitOn ":" with
+        | [srcs, q, tys] => ⟨if srcs == "-" then [] else (srcs.splitOn "+").map String.toNat!, q == "q", tys.splitOn "+"⟩
+        | _ => ⟨[], false, []⟩
+      showNatList (disabledChildren (recordCalls [] cs) (ids children))
   -- C13: hooks13 <trace as nested parens, e.g. (1(2))(3)>  → final pre ids, post ids, stack depth, nextId
   | ["hooks13", tr] =>
       let rec parse (cs : List Char) (fuel : Nat) : Trace × List Char :=
